@@ -7,8 +7,14 @@ package centrifuge
 import (
 	"fmt"
 	"math/rand"
+	"strings"
 	"testing"
 )
+
+func c20Count(w *verifW, key string, n int) {
+	v, _ := w.Extra[key].(int)
+	w.Extra[key] = v + n
+}
 
 func c20GenCfg(r *rand.Rand) c20Raw {
 	var c c20Raw
@@ -26,7 +32,7 @@ func c20GenCfg(r *rand.Rand) c20Raw {
 			c.MTTL = 200
 		}
 	}
-	if r.Intn(10) == 0 { // a malformed configuration
+	if r.Intn(20) == 0 { // a malformed configuration
 		switch r.Intn(12) {
 		case 0:
 			c.Mode = 0
@@ -100,6 +106,7 @@ type c20Gen struct {
 	nch     int
 	data    uint64
 	cursors map[int]string
+	verHeavy bool
 }
 
 func (g *c20Gen) pickCh() int {
@@ -131,7 +138,12 @@ func (g *c20Gen) op() c20Op {
 			o.Tags = int64(r.Intn(4))
 		}
 		o.Delta = r.Intn(4) == 0
-		if r.Intn(3) == 0 {
+		if g.verHeavy && r.Intn(4) != 0 {
+			o.Ver = uint64(1 + r.Intn(3))
+			if r.Intn(4) == 0 {
+				o.Vep = uint64(1 + r.Intn(2))
+			}
+		} else if r.Intn(5) < 2 {
 			_, ver, _ := e.curEntry(ch, key)
 			switch r.Intn(4) {
 			case 0:
@@ -162,6 +174,9 @@ func (g *c20Gen) op() c20Op {
 		if r.Intn(10) < 3 {
 			o.Exp = c20PickExp(r, e, ch, key)
 		}
+		if ch < len(e.cfgs) && e.cfgs[ch].Mode == 1 && r.Intn(6) != 0 {
+			o.Ver, o.Vep, o.Exp = 0, 0, nil // ephemeral channels reject these: keep most publishes valid
+		}
 	case x < 60:
 		o.Kind, o.Key = "remove", key
 		if r.Intn(4) == 0 {
@@ -173,6 +188,12 @@ func (g *c20Gen) op() c20Op {
 		}
 		if r.Intn(10) < 3 {
 			o.Exp = c20PickExp(r, e, ch, key)
+		}
+		if ch < len(e.cfgs) && e.cfgs[ch].Mode == 1 && r.Intn(6) != 0 {
+			o.Exp = nil
+		}
+		if ks := e.keysOf(ch); len(ks) > 0 && r.Intn(2) == 0 {
+			o.Key = ks[r.Intn(len(ks))] // mostly remove keys that exist
 		}
 	case x < 72:
 		o.Kind = "rstate"
@@ -344,7 +365,7 @@ func TestVerifC20(t *testing.T) {
 				names[k] = fmt.Sprintf("c%d", k)
 			}
 			e := c20NewEnv(t, cfgs, names)
-			g := &c20Gen{r: r, e: e, nch: nch, cursors: map[int]string{}}
+			g := &c20Gen{r: r, e: e, nch: nch, cursors: map[int]string{}, verHeavy: r.Intn(4) == 0}
 			c = c20Case{Cfgs: cfgs}
 			emit := func(o c20Op, ob c20Obs) { c.Ops = append(c.Ops, o); c.Obs = append(c.Obs, ob) }
 			n := 4 + r.Intn(22)
@@ -364,6 +385,17 @@ func TestVerifC20(t *testing.T) {
 		var supp, unsupStream, reads bool
 		for k, o := range c.Ops {
 			ob := c.Obs[k]
+			if o.Kind == "sweep" {
+				c20Count(w, "sweep_removals", len(ob.Bcasts))
+				if len(ob.Bcasts) > 1 {
+					c20Count(w, "sweeps_removing_several_keys", 1)
+				}
+			}
+			for _, rs := range []string{"RIdem", "RVersion", "RKeyExists", "RKeyNotFound", "RMismatch", "UErr", "StUnrec", "SUnrec"} {
+				if strings.Contains(ob.Res, rs) {
+					c20Count(w, "result_"+rs, 1)
+				}
+			}
 			switch o.Kind {
 			case "publish", "remove":
 				if ob.suppressed {
